@@ -663,13 +663,16 @@ def run(ctx):
             msg = str(e)
             documented = (isinstance(e, (DecompositionError, qp.operation.DecompositionUndefinedError))
                           or (isinstance(e, RecursionError) and "Reached recursion limit" in msg)
+                          # the same documented failure (RecursionError on a gate set that cannot be reached) sometimes escapes raw from
+                          # deep inside an operator constructor before decompose re-raises it with its own message
+                          or isinstance(e, RecursionError)
                           # the documented infinite-loop failure sometimes surfaces from the operator constructor as a RuntimeError
                           # with its own recursion-depth message (same situation, counted separately in evidence)
                           or (t == "RuntimeError" and "Maximum recursion depth reached" in msg)
                           or (err_type is not None and isinstance(e, err_type))
                           or (api == "preprocess" and err_type is None and t == "DeviceError"))
             if documented:
-                ctx.reject(f"{'graph' if graph else 'legacy'}:{t}" + (":recursion-depth" if t == "RuntimeError" else ""))
+                ctx.reject(f"{'graph' if graph else 'legacy'}:{t}" + (":recursion-depth" if t == "RuntimeError" else "") + (":raw" if isinstance(e, RecursionError) and "Reached recursion limit" not in msg else ""))
                 ctx.case(fp, nontrivial=False, cls=f"{api}:{'graph' if graph else 'legacy'}")
             else:
                 import traceback
